@@ -300,13 +300,14 @@ def run_check(prop, tier, seed, replay=None):
         "violations": n_new,
     }
     os.makedirs(os.path.join(OUT_ROOT, "evidence"), exist_ok=True)
-    with open(os.path.join(OUT_ROOT, "evidence", "%s.json" % prop), "w") as f:
-        json.dump(evidence, f, indent=1, sort_keys=True, default=repr)
+    names = ["%s.json" % prop]
     if tier == "thorough":
         # the evidence file is rewritten by every run; keep the last thorough run's record beside it
-        with open(os.path.join(OUT_ROOT, "evidence", "%s.thorough.json" % prop), "w") as f:
+        names.append("%s.thorough.json" % prop)
+    for name in names:
+        with open(os.path.join(OUT_ROOT, "evidence", name), "w") as f:
             json.dump(evidence, f, indent=1, sort_keys=True, default=repr)
-        f.write("\n")
+            f.write("\n")
 
     print("%s tier=%s seed=%d evaluations=%d distinct_nontrivial=%d wall=%.1fs verdict=%s" % (
         prop, tier, seed, ctx.evaluations, len(ctx.distinct), evidence["wall_s"],
